@@ -220,3 +220,71 @@ Proof.
   exists (mkGenesis [wit_asset] [] [mkSupply (0, 5) (0, 0) (0, 0) (0, 0) 0] None).
   split; vm_compute; reflexivity.
 Qed.
+
+(** ** after PrepForZeroHeightGenesis
+    Every open contract's expiration height becomes the number of blocks left plus one; the Go function leaves
+    the expiration queue as it is (stale heights), which does not matter: the queue is not exported and
+    InitGenesis rebuilds it.  The prepared state is again a reachable-looking state, so the four theorems
+    apply to it, provided no open contract has already expired at the export height. *)
+Lemma validate_htlc_prep fx height h :
+  validate_htlc fx h = true -> (is_open h = true -> height <= h_expiry h < two64) -> 0 < height ->
+  validate_htlc fx (prep_htlc height h) = true.
+Proof.
+  intros Hv Hexp Hh. unfold prep_htlc. destruct (is_open h) eqn:Ho; [|exact Hv].
+  specialize (Hexp eq_refl).
+  assert (Hne : ((h_expiry h - height + 1) mod two64 =? 0) = false).
+  { rewrite Z.mod_small by (unfold two64 in *; lia). lia. }
+  unfold validate_htlc, timestamp_ok in *. cbn [h_id h_sender h_to h_recv_other h_send_other h_amount h_hashlock h_secret
+    h_timestamp h_expiry h_state h_closed h_transfer h_dir].
+  rewrite Hne. cbn [negb].
+  repeat (apply andb_true_iff in Hv; destruct Hv as [Hv ?]).
+  repeat (apply andb_true_iff; split); try assumption; try reflexivity;
+    match goal with Hx : validate_amount _ _ = true |- _ =>
+      unfold validate_amount in Hx; apply andb_true_iff in Hx; destruct Hx; assumption end.
+Qed.
+
+Lemma open_amounts_prep d height s : open_amounts d (prep height s) = open_amounts d s.
+Proof.
+  unfold open_amounts, prep. cbn [htlcs]. rewrite flat_map_concat_map, map_map, <- flat_map_concat_map.
+  apply flat_map_ext. intros e. cbn [snd]. unfold prep_htlc. destruct (is_open (snd e)) eqn:Ho; [|rewrite Ho; reflexivity].
+  unfold is_open in *. cbn [h_state h_transfer h_dir h_amount]. rewrite Ho. reflexivity.
+Qed.
+
+Lemma sortedb_map_vals {V W} (f : Z * V -> W) (m : list (Z * V)) :
+  sortedb lt1 m = true -> sortedb lt1 (map (fun e => (fst e, f e)) m) = true.
+Proof.
+  induction m as [|a m IH]; simpl; intros Hs; [reflexivity|].
+  destruct m as [|b m']; [reflexivity|]. simpl in *. apply andb_true_iff in Hs. destruct Hs as [Hab Ht].
+  rewrite Hab. simpl. apply IH. exact Ht.
+Qed.
+
+Lemma htlc_prep_inv_lemma height s :
+  invb true s = true -> 0 < height ->
+  forallb (fun e => negb (is_open (snd e)) || ((height <=? h_expiry (snd e)) && (h_expiry (snd e) <? two64))) (htlcs s) = true ->
+  invb true (prep height s) = true.
+Proof.
+  intros Hinv Hh Hexp. unfold invb in *. split_andb Hinv.
+  rename Hinv into Hhs, Hi6 into Hhk, Hi5 into Hss, Hi4 into Hsk, Hi3 into Hp, Hi2 into Hhv, Hi1 into Hsv, Hi0 into Hlive, Hi into Hsup.
+  rewrite !open_amounts_prep.
+  assert (E1 : supplies (prep height s) = supplies s) by reflexivity.
+  assert (E2 : params (prep height s) = params s) by reflexivity.
+  assert (E3 : htlcs (prep height s) = map (fun e : Z * htlc => (fst e, prep_htlc height (snd e))) (htlcs s)) by reflexivity.
+  rewrite E1, E2, E3.
+  rewrite Hss, Hsk, Hp, Hsv, Hsup.
+  assert (H0 : sortedb lt1 (map (fun e : Z * htlc => (fst e, prep_htlc height (snd e))) (htlcs s)) = true)
+    by (exact (sortedb_map_vals (fun e0 : Z * htlc => prep_htlc height (snd e0)) (htlcs s) Hhs)).
+  rewrite H0. cbn [andb].
+  assert (H1 : forallb key_ok_h (map (fun e : Z * htlc => (fst e, prep_htlc height (snd e))) (htlcs s)) = true).
+  { rewrite forallb_forall in *. intros e He. apply in_map_iff in He. destruct He as (e0 & <- & He0).
+    specialize (Hhk e0 He0). unfold key_ok_h in *. cbn [fst snd]. unfold prep_htlc. destruct (is_open (snd e0)); exact Hhk. }
+  assert (H2 : forallb (fun e => validate_htlc true (snd e)) (map (fun e : Z * htlc => (fst e, prep_htlc height (snd e))) (htlcs s)) = true).
+  { rewrite forallb_forall in *. intros e He. apply in_map_iff in He. destruct He as (e0 & <- & He0). cbn [snd].
+    apply validate_htlc_prep; [exact (Hhv e0 He0)| |exact Hh].
+    intros Ho. specialize (Hexp e0 He0). rewrite Ho in Hexp. simpl in Hexp. lia. }
+  assert (H3 : forallb (fun e => negb (is_open (snd e) && h_transfer (snd e)) || live_asset (params s) (first_denom (snd e)))
+                 (map (fun e : Z * htlc => (fst e, prep_htlc height (snd e))) (htlcs s)) = true).
+  { rewrite forallb_forall in *. intros e He. apply in_map_iff in He. destruct He as (e0 & <- & He0). cbn [snd].
+    specialize (Hlive e0 He0). unfold prep_htlc. destruct (is_open (snd e0)) eqn:Ho; [|rewrite Ho; exact Hlive].
+    unfold is_open, first_denom in *. cbn [h_state h_transfer h_amount]. rewrite Ho in *. exact Hlive. }
+  rewrite H1, H2, H3. reflexivity.
+Qed.
